@@ -317,6 +317,8 @@ def unit_case(draw, cmds, max_rank=1, dtypes=("float64", "int64"), wild=False, m
     if n >= 2 and draw(st.integers(0, 7)) == 0:
         # the same result listed twice: input j is the very object that input i is
         i, j = sorted(draw(st.lists(st.integers(0, n - 1), min_size=2, max_size=2, unique=True)))
-        arrays[j] = dict(arrays[i])
-        case["aliases"] = [[i, j]]
+        # (a column of large integers is not listed a third time: three of them multiplied leave the 64-bit range)
+        if not (tiny and j >= 2 and arrays[i]["dtype"] == "int64" and any(abs(x) > 10 ** 6 for x in arrays[i]["data"])):
+            arrays[j] = dict(arrays[i])
+            case["aliases"] = [[i, j]]
     return case
